@@ -178,6 +178,7 @@ func famC13(r *Run) {
 	famNearTwins(r)
 	famManyDistinct(r)
 	famSameNameTypes(r)
+	famHistLong(r)
 }
 
 func parseObs(p *jmespath.Parser, expr string) (a AObs) {
@@ -327,6 +328,8 @@ func famC14(r *Run) {
 	famC14extra(r)
 	famNearTwins(r)
 	famBackslashRuns(r)
+	famSingleWs(r)
+	famQuotedControl(r)
 }
 
 func rawOrLit(s string) string {
@@ -419,4 +422,6 @@ func famC15(r *Run) {
 		}
 	}
 	famFunctionEdges(r)
+	famPipeJSONStrings(r)
+	famLongChains(r)
 }
